@@ -76,6 +76,21 @@ func (x *klCtx) tableHeld(t *Trace, i int) bool {
 	return false
 }
 
+// otherWideLockHeld: a lock other than the table mutex and other than a per-key RWMutex (wrapLocker.rwLocker)
+// is held at event i — i.e. some further locker-wide mutex. Returns its address for the report.
+func (x *klCtx) otherWideLockHeld(t *Trace, i int) (string, bool) {
+	for _, h := range t.heldLocks(i) {
+		if _, ok := lockIsField(h, x.locker); ok {
+			continue
+		}
+		if _, ok := lockIsField(h, x.rw); ok {
+			continue
+		}
+		return h.sym.Key(), true
+	}
+	return "", false
+}
+
 func (x *klCtx) run() {
 	c := x.c
 	const rel = "syncx/keylock"
@@ -131,6 +146,9 @@ func (x *klCtx) run() {
 				if isRW && (op == "Lock" || op == "RLock") {
 					sawBlock = true
 					// (2)
+					if k, held := x.otherWideLockHeld(t, i); held {
+						fail(&okBlock, "C02.no-block-under-table-lock", i, "a locker-wide mutex ("+c.short(k)+") is held while blocking on a key's RWMutex."+op+": while this caller waits for one key, callers that need that mutex for entirely different keys are blocked, and a holder of the awaited key that needs it (an ordered multi-key extension) deadlocks")
+					}
 					if x.tableHeld(t, i) {
 						fail(&okBlock, "C02.no-block-under-table-lock", i, "the table mutex is held while blocking on a key's RWMutex."+op+": while this caller waits for one key, every operation on every other key of this locker is blocked (and the holder's Unlock, which needs the table mutex, deadlocks)")
 					}
